@@ -3,7 +3,7 @@
 //
 //   stream_walk --rel <relation.ndjson> --content 2,0,65,0 --backend mem|memslice|file|fileslice
 //               --depth D [--random R --len L] --workdir DIR [--start K] [--seed S]
-#include "common/proto.hpp"
+#include "common/proto_main.hpp"
 #include "Stream/MemoryReader.h"
 #include "Stream/FileReader.h"
 #include "Stream/SliceReader.h"
